@@ -1,10 +1,23 @@
 import GeomV.C10.GenWrites
+import GeomV.C10.GenBodies
 import GeomV.C10.Ctors
 /-! Regenerated tie for the constructor `LCC` (/repo/proj): the fields it assigns in the Go source (go/ast
 extraction, `GenWrites.lean`, rewritten on every run) are exactly the model's write set; its closures
 assign nothing; no compound assignment; the SR is passed on only to the modelled callees; no field
 address is taken. -/
+set_option linter.unusedSimpArgs false
 namespace GeomV.C10
 theorem tie_LCC :
     Gen.ctorWrites.lookup "LCC" = some (writeSet .lcc, [], [], calleesOf .lcc, []) := by decide
+
+/-- Regenerated tie for the VALUES and CONDITIONS: the slice of `LCC`'s body that decides its writes and
+its error (extracted by go/ast into `GenBodies.lean` on every run), interpreted by `IR.run`, equals the
+model `initP .lcc` for every SR and every float semantics. -/
+theorem tie_body_LCC : BodyTie Gen.ctorBodies .lcc := by
+  open IR POps in
+  intro F R _ p
+  simp only [run, Gen.ctorBodies, goFunc, List.lookup]
+  cases h1 : isNaN p.lat2 <;> cases h2 : isNaN p.k0 <;> cases h3 : isNaN p.x0 <;> cases h4 : isNaN p.y0 <;>
+    cases h5 : lt (abs (add p.lat1 p.lat2)) epsln <;> cases h6 : lt (abs (add p.lat1 p.lat1)) epsln <;>
+    simp [exec, eval, getF, setFld, cstV, call1F, binF, initP, initLCC, parallelsBad, nanDefault, h1, h2, h3, h4, h5, h6]
 end GeomV.C10
